@@ -1,0 +1,293 @@
+// SPDX-License-Identifier: Apache-2.0
+//
+// Verification hooks. This whole module is compiled only with
+// `--cfg pickle_fuzzer_verif`; a normal build never sees it.
+//
+// It provides
+//  * re-exports of types that are public-in-private and therefore cannot be
+//    named from outside the crate (entropy sources, opcode kinds/tables);
+//  * a thread-local event recorder that the generator calls at its critical
+//    steps (off unless a harness installs it);
+//  * the projection of the simulated PVM state to small integer "kind" codes.
+
+use std::cell::RefCell;
+use std::collections::HashMap;
+use std::rc::Rc;
+
+pub use crate::generator::{EntropySource, GenerationSource};
+pub use crate::opcodes::{OpcodeKind, PICKLE_OPCODES};
+pub use crate::stack::{StackObject, StackObjectRef};
+
+use crate::generator::Generator;
+
+/// Kind code of a simulated stack object (one code per `StackObject` variant).
+pub fn kind_code(obj: &StackObject) -> u8 {
+    match obj {
+        StackObject::Mark => 0,
+        StackObject::Int(_) => 1,
+        StackObject::Float(_) => 2,
+        StackObject::Bool(_) => 3,
+        StackObject::None => 4,
+        StackObject::Bytes(_) => 5,
+        StackObject::String(_) => 6,
+        StackObject::ByteArray(_) => 7,
+        StackObject::List(_) => 8,
+        StackObject::Tuple(_) => 9,
+        StackObject::Dict(_) => 10,
+        StackObject::Set(_) => 11,
+        StackObject::FrozenSet(_) => 12,
+        StackObject::Global { .. } => 13,
+        StackObject::Instance(_) => 14,
+        StackObject::Callable(_) => 15,
+        StackObject::Extension(_) => 16,
+        StackObject::Any => 17,
+    }
+}
+
+/// One recorded step of a generation.
+#[derive(Debug, Clone, Default)]
+pub struct Event {
+    /// control point: begin, proto, reserve, target, body, close, collapse, pad,
+    /// fix, stop, patch, ret
+    pub phase: &'static str,
+    /// opcode the generator believes it emitted in this step
+    pub op: Option<OpcodeKind>,
+    /// output length after the step
+    pub out_len: usize,
+    /// number of stack slots (from the bottom) unchanged since the previous event
+    pub kept: usize,
+    /// kind codes of the slots above `kept` after the step
+    pub pushed: Vec<u8>,
+    /// identity (small per-recording id) of each slot in `pushed` (cycle-tracking mode only)
+    pub pushed_ids: Vec<u32>,
+    /// memo entries added or changed by the step: (key, kind)
+    pub memo_delta: Vec<(usize, u8)>,
+    /// memo size after the step
+    pub memo_len: usize,
+    /// proto_emitted flag after the step
+    pub proto_emitted: bool,
+    /// drawn target (phase "target")
+    pub target: Option<usize>,
+    /// opcodes enabled before this body step
+    pub enabled: Option<Vec<OpcodeKind>>,
+    /// value mutations that fired since the previous event: (value kind, mutator index)
+    pub mutations: Vec<(&'static str, usize)>,
+    /// post-emission mutators that reported a rewrite since the previous event
+    pub rewrites: Vec<usize>,
+    /// output bytes differ from what they were right after emission (rewritten in place)
+    pub rewritten: bool,
+    /// a strong reference cycle is reachable from the stack or memo roots
+    pub cycle: bool,
+}
+
+#[derive(Default)]
+struct Recorder {
+    events: Vec<Event>,
+    last_stack: Vec<(usize, u8)>,
+    last_memo: HashMap<usize, u8>,
+    ids: HashMap<usize, u32>,
+    keep_alive: Vec<StackObjectRef>,
+    pending_enabled: Option<Vec<OpcodeKind>>,
+    pending_mutations: Vec<(&'static str, usize)>,
+    pending_rewrites: Vec<usize>,
+    pending_rewritten: bool,
+    track_cycles: bool,
+}
+
+thread_local! {
+    static RECORDER: RefCell<Option<Recorder>> = const { RefCell::new(None) };
+}
+
+/// Install a fresh recorder on this thread.
+pub fn start_recording(track_cycles: bool) {
+    RECORDER.with(|r| {
+        *r.borrow_mut() = Some(Recorder {
+            track_cycles,
+            ..Default::default()
+        })
+    });
+}
+
+/// Remove the recorder and return what it saw.
+pub fn stop_recording() -> Vec<Event> {
+    RECORDER.with(|r| r.borrow_mut().take().map(|r| r.events).unwrap_or_default())
+}
+
+/// Is a recorder installed on this thread?
+pub fn is_recording() -> bool {
+    RECORDER.with(|r| r.borrow().is_some())
+}
+
+fn reaches_cycle(roots: &[StackObjectRef]) -> bool {
+    // iterative DFS with colours over cell addresses
+    fn children(obj: &StackObject) -> Vec<StackObjectRef> {
+        match obj {
+            StackObject::List(v) | StackObject::Tuple(v) => v.clone(),
+            StackObject::Dict(m) => m.iter().flat_map(|(k, v)| [k.clone(), v.clone()]).collect(),
+            StackObject::Set(s) | StackObject::FrozenSet(s) => s.iter().cloned().collect(),
+            StackObject::Instance(i) => vec![i.callable.clone(), i.args.clone()],
+            StackObject::Callable(c) => vec![c.clone()],
+            _ => Vec::new(),
+        }
+    }
+    let mut colour: HashMap<usize, u8> = HashMap::new();
+    for root in roots {
+        let key = Rc::as_ptr(&root.0) as *const () as usize;
+        if colour.contains_key(&key) {
+            continue;
+        }
+        let mut stack: Vec<(StackObjectRef, Vec<StackObjectRef>, usize)> = Vec::new();
+        colour.insert(key, 1);
+        let ch = children(&root.borrow());
+        stack.push((root.clone(), ch, 0));
+        while let Some((node, ch, idx)) = stack.pop() {
+            if idx < ch.len() {
+                let next = ch[idx].clone();
+                stack.push((node, ch, idx + 1));
+                let nkey = Rc::as_ptr(&next.0) as *const () as usize;
+                match colour.get(&nkey) {
+                    Some(1) => return true,
+                    Some(_) => {}
+                    None => {
+                        colour.insert(nkey, 1);
+                        let nch = children(&next.borrow());
+                        stack.push((next, nch, 0));
+                    }
+                }
+            } else {
+                let nkey = Rc::as_ptr(&node.0) as *const () as usize;
+                colour.insert(nkey, 2);
+            }
+        }
+    }
+    false
+}
+
+/// Record one step. Called by the generator after the state change of the step.
+pub(crate) fn record(gen: &Generator, phase: &'static str, op: Option<OpcodeKind>) {
+    record_with(gen, phase, op, None)
+}
+
+/// Record the target draw.
+pub(crate) fn record_target(gen: &Generator, target: usize) {
+    record_with(gen, "target", None, Some(target))
+}
+
+fn record_with(gen: &Generator, phase: &'static str, op: Option<OpcodeKind>, target: Option<usize>) {
+    RECORDER.with(|r| {
+        let mut guard = r.borrow_mut();
+        let Some(rec) = guard.as_mut() else {
+            return;
+        };
+        let cur: Vec<(usize, u8)> = gen
+            .state
+            .stack
+            .inner
+            .iter()
+            .map(|c| {
+                (
+                    Rc::as_ptr(&c.0) as *const () as usize,
+                    kind_code(&c.borrow()),
+                )
+            })
+            .collect();
+        let mut kept = 0;
+        while kept < cur.len() && kept < rec.last_stack.len() && cur[kept] == rec.last_stack[kept] {
+            kept += 1;
+        }
+        let mut pushed = Vec::new();
+        let mut pushed_ids = Vec::new();
+        for (i, (ptr, kind)) in cur.iter().enumerate().skip(kept) {
+            pushed.push(*kind);
+            if rec.track_cycles {
+                let n = rec.ids.len() as u32;
+                let id = *rec.ids.entry(*ptr).or_insert(n);
+                pushed_ids.push(id);
+                // keep every observed cell alive so that addresses are never
+                // reused while recording (ids stay unique)
+                rec.keep_alive.push(gen.state.stack.inner[i].clone());
+            }
+        }
+        let mut memo_delta = Vec::new();
+        let mut keys: Vec<usize> = gen.state.memo.keys().copied().collect();
+        keys.sort_unstable();
+        let mut cur_memo = HashMap::new();
+        for k in keys {
+            let kind = kind_code(&gen.state.memo[&k].borrow());
+            if rec.last_memo.get(&k) != Some(&kind) {
+                memo_delta.push((k, kind));
+            }
+            cur_memo.insert(k, kind);
+        }
+        // a removed key is reported with kind 255
+        let mut removed: Vec<usize> = rec
+            .last_memo
+            .keys()
+            .filter(|k| !cur_memo.contains_key(k))
+            .copied()
+            .collect();
+        removed.sort_unstable();
+        for k in removed {
+            memo_delta.push((k, 255));
+        }
+        let cycle = if rec.track_cycles {
+            let mut roots: Vec<StackObjectRef> = gen.state.stack.inner.clone();
+            roots.extend(gen.state.memo.values().cloned());
+            reaches_cycle(&roots)
+        } else {
+            false
+        };
+        let ev = Event {
+            phase,
+            op,
+            out_len: gen.output.len(),
+            kept,
+            pushed,
+            pushed_ids,
+            memo_delta,
+            memo_len: gen.state.memo.len(),
+            proto_emitted: gen.state.proto_emitted,
+            target,
+            enabled: rec.pending_enabled.take(),
+            mutations: std::mem::take(&mut rec.pending_mutations),
+            rewrites: std::mem::take(&mut rec.pending_rewrites),
+            rewritten: std::mem::take(&mut rec.pending_rewritten),
+            cycle,
+        };
+        rec.events.push(ev);
+        rec.last_stack = cur;
+        rec.last_memo = cur_memo;
+    });
+}
+
+/// Note the enabled set computed for the next body step.
+pub(crate) fn note_enabled(ops: &[OpcodeKind]) {
+    RECORDER.with(|r| {
+        if let Some(rec) = r.borrow_mut().as_mut() {
+            rec.pending_enabled = Some(ops.to_vec());
+        }
+    });
+}
+
+/// Note that mutator number `idx` changed a value of the given kind.
+pub(crate) fn note_mutation(value_kind: &'static str, idx: usize) {
+    RECORDER.with(|r| {
+        if let Some(rec) = r.borrow_mut().as_mut() {
+            rec.pending_mutations.push((value_kind, idx));
+        }
+    });
+}
+
+/// Note the outcome of one post-emission mutator.
+pub(crate) fn note_rewrite(idx: usize, reported: bool, changed: bool) {
+    RECORDER.with(|r| {
+        if let Some(rec) = r.borrow_mut().as_mut() {
+            if reported {
+                rec.pending_rewrites.push(idx);
+            }
+            if changed {
+                rec.pending_rewritten = true;
+            }
+        }
+    });
+}
